@@ -1,0 +1,7 @@
+//go:build !verif
+// +build !verif
+
+package base
+
+// simRandRead is the seeded-randomness seam; active only under the verif build tag.
+func simRandRead(b []byte) bool { return false }
